@@ -117,6 +117,9 @@ func machinery(format string, a ...interface{}) {
 }
 
 func mfRunJob(j mfJob) mfLine {
+	if j.C != nil && j.C.Arg == nil {
+		j.C.Arg = []interface{}{}
+	}
 	switch j.K {
 	case "case":
 		if j.C.Kind == "ammo" {
